@@ -32,7 +32,9 @@ CONSTANTS ChunkBytes, CMax,
                      \* "reserve_all" (reserve the claimed count at once), "count_wrap" (counter wraps),
                      \* "mem_gt" (memory limit test >), "bool_any" (any non-zero byte is true),
                      \* "list_no_descend", "box_no_announce", "unk_single_alloc" (unknown-length input: whole claimed
-                     \* vector allocated at once);  and one deviation that keeps every property and must be ACCEPTED:
+                     \* vector allocated at once), "rest_after_chunk" (after the first chunk has arrived the whole remaining
+                     \* claimed length is reserved), "zst_one_byte" (zero-sized elements announced as one byte each);
+                     \* and one deviation that keeps every property and must be ACCEPTED:
                      \* "bulk_no_guard" (the up-front remaining-length guard removed: chunking still bounds the heap)
 
 Dummy == [k |-> "unit", sz |-> 0]
@@ -178,7 +180,7 @@ StepLen(cfg, m0, t) ==
               \* announcement if there is any element, the loop, ascend - collapsed into one step
               LET m1 == Desc(cfg, m) IN
               IF m1.status # "run" THEN m1
-              ELSE LET total == SatMul(n, ElemSize(cfg.E, t.t))      \* chunk announcements add up to count * size_of::<T>():
+              ELSE LET total == SatMul(n, IF Variant = "zst_one_byte" THEN MaxOf(1, ElemSize(cfg.E, t.t)) ELSE ElemSize(cfg.E, t.t))      \* chunk announcements add up to count * size_of::<T>():
                        m2 == IF IsZeroDig(dig) THEN m1               \* nothing bounds it when elements take no input (known finding C09)
                              ELSE Hold(Alloc(cfg, m1, total), total)
                    IN IF m2.status # "run" THEN m2 ELSE Pop(PushV(Asc(m2), [rep |-> dig]))
@@ -211,7 +213,8 @@ StepBulk(cfg, m, fr) ==
                IF ~CanRead(cfg, m2, c * w) THEN FailM(m2, "data")
                ELSE LET items == [j \in 1..c |-> Bytes(cfg, m2.pos + (j - 1) * w, w)]
                         m3 == [Rd(cfg, m2, c * w) EXCEPT !.vs[1] = @ \o items]
-                    IN Cont(m3, <<Fr("bulk", fr.t, fr.n - c, w)>>)
+                        m4 == IF Variant = "rest_after_chunk" THEN Hold(m3, SatMul(fr.n - c, w)) ELSE m3
+                    IN Cont(m4, <<Fr("bulk", fr.t, fr.n - c, w)>>)
 
 \* element-wise chunks: announce + reserve one chunk, then decode its elements
 StepChunks(cfg, m, fr) ==
